@@ -21,7 +21,14 @@ import (
 
 type Rand struct{ s uint64 }
 
-func NewRand(seed uint64) *Rand { return &Rand{s: seed*0x9E3779B97F4A7C15 + 0x1234567} }
+// NewRand scrambles the seed first: consecutive seeds must not give shifted copies of one stream.
+func NewRand(seed uint64) *Rand {
+	z := seed + 0x9E3779B97F4A7C15
+	z = (z ^ (z >> 30)) * 0xBF58476D1CE4E5B9
+	z = (z ^ (z >> 27)) * 0x94D049BB133111EB
+	z ^= z >> 31
+	return &Rand{s: z ^ 0x5851F42D4C957F2D}
+}
 
 func (r *Rand) U64() uint64 {
 	r.s += 0x9E3779B97F4A7C15
@@ -36,9 +43,9 @@ func (r *Rand) Intn(n int) int {
 	}
 	return int(r.U64() % uint64(n))
 }
-func (r *Rand) Bool() bool         { return r.U64()&1 == 1 }
-func (r *Rand) Chance(p int) bool  { return r.Intn(100) < p }
-func (r *Rand) Fork() *Rand        { return NewRand(r.U64()) }
+func (r *Rand) Bool() bool          { return r.U64()&1 == 1 }
+func (r *Rand) Chance(p int) bool   { return r.Intn(100) < p }
+func (r *Rand) Fork() *Rand         { return NewRand(r.U64()) }
 func Pick[T any](r *Rand, xs []T) T { return xs[r.Intn(len(xs))] }
 
 // Hex encodes bytes for the line protocol ("-" = empty).
@@ -163,9 +170,10 @@ type Result struct {
 }
 
 // SpecAllows implements the spec column's small pattern language:
-//   "*"            anything
-//   "a|b|c"        any of the alternatives
-//   "pre*"         (an alternative ending in *) prefix match
+//
+//	"*"            anything
+//	"a|b|c"        any of the alternatives
+//	"pre*"         (an alternative ending in *) prefix match
 func SpecAllows(spec, impl string) bool {
 	if spec == "*" {
 		return true
@@ -370,14 +378,21 @@ func Main(name string, e Engine) {
 				Op: min[j], Impl: a[j], Model: b[j], Spec: s[j], From: from})
 		}
 		if i := firstDiff(impl, spec, true); i >= 0 && len(res.ImplVsSpec) < *maxMism {
-			min := Shrink(ops[:i+1], func(c []string) bool {
-				a, _, s := RunCase(e, d, c)
-				return firstDiff(a, s, true) >= 0
-			})
-			a, b, s := RunCase(e, d, min)
-			j := firstDiff(a, s, true)
-			res.ImplVsSpec = append(res.ImplVsSpec, Mismatch{Kind: "impl-vs-spec", Case: idx, Index: j, Ops: min,
-				Op: min[j], Impl: a[j], Model: b[j], Spec: s[j], From: from})
+			if impl[i] == model[i] {
+				// the as-is model predicts this failure (a known finding's manifestation):
+				// record it unshrunk — minimising it would only re-run the real code for nothing
+				res.ImplVsSpec = append(res.ImplVsSpec, Mismatch{Kind: "impl-vs-spec", Case: idx, Index: i, Ops: ops[:i+1],
+					Op: ops[i], Impl: impl[i], Model: model[i], Spec: spec[i], From: from})
+			} else {
+				min := Shrink(ops[:i+1], func(c []string) bool {
+					a, _, s := RunCase(e, d, c)
+					return firstDiff(a, s, true) >= 0
+				})
+				a, b, s := RunCase(e, d, min)
+				j := firstDiff(a, s, true)
+				res.ImplVsSpec = append(res.ImplVsSpec, Mismatch{Kind: "impl-vs-spec", Case: idx, Index: j, Ops: min,
+					Op: min[j], Impl: a[j], Model: b[j], Spec: s[j], From: from})
+			}
 		}
 	}
 
@@ -413,18 +428,18 @@ func Main(name string, e Engine) {
 // QuietRaftLogger is an etcd/raft logger that drops everything below Error.
 type QuietRaftLogger struct{}
 
-func (QuietRaftLogger) Debug(v ...any)                 {}
-func (QuietRaftLogger) Debugf(format string, v ...any) {}
-func (QuietRaftLogger) Info(v ...any)                  {}
-func (QuietRaftLogger) Infof(format string, v ...any)  {}
-func (QuietRaftLogger) Warning(v ...any)               {}
+func (QuietRaftLogger) Debug(v ...any)                   {}
+func (QuietRaftLogger) Debugf(format string, v ...any)   {}
+func (QuietRaftLogger) Info(v ...any)                    {}
+func (QuietRaftLogger) Infof(format string, v ...any)    {}
+func (QuietRaftLogger) Warning(v ...any)                 {}
 func (QuietRaftLogger) Warningf(format string, v ...any) {}
-func (QuietRaftLogger) Error(v ...any)                 { fmt.Fprintln(os.Stderr, v...) }
-func (QuietRaftLogger) Errorf(format string, v ...any) { fmt.Fprintf(os.Stderr, format+"\n", v...) }
-func (QuietRaftLogger) Fatal(v ...any)                 { panic(fmt.Sprint(v...)) }
-func (QuietRaftLogger) Fatalf(format string, v ...any) { panic(fmt.Sprintf(format, v...)) }
-func (QuietRaftLogger) Panic(v ...any)                 { panic(fmt.Sprint(v...)) }
-func (QuietRaftLogger) Panicf(format string, v ...any) { panic(fmt.Sprintf(format, v...)) }
+func (QuietRaftLogger) Error(v ...any)                   { fmt.Fprintln(os.Stderr, v...) }
+func (QuietRaftLogger) Errorf(format string, v ...any)   { fmt.Fprintf(os.Stderr, format+"\n", v...) }
+func (QuietRaftLogger) Fatal(v ...any)                   { panic(fmt.Sprint(v...)) }
+func (QuietRaftLogger) Fatalf(format string, v ...any)   { panic(fmt.Sprintf(format, v...)) }
+func (QuietRaftLogger) Panic(v ...any)                   { panic(fmt.Sprint(v...)) }
+func (QuietRaftLogger) Panicf(format string, v ...any)   { panic(fmt.Sprintf(format, v...)) }
 
 // ReadOps reads an ops file: one op per line, '#' comments and blank lines skipped.
 func ReadOps(path string) []string {
